@@ -99,6 +99,7 @@ def handle (line : String) : String :=
   | "buf" :: args => bufHandle args
   | "args" :: ws => argsHandle ws
   | "lines" :: ws => linesHandle ws
+  | "edit" :: ws => editHandle ws
   | _ => "bad-op"
 
 partial def loop (h : IO.FS.Stream) (out : IO.FS.Stream) : IO Unit := do
